@@ -66,7 +66,7 @@ using Universe = TL<
     vector<u8>, vector<i32>, vector<float>, vector<string>, vector<W1<i32>>, vector<W1<string>>, vector<S2<i32, string>>,
     array<u8, 3>, array<i32, 3>, array<float, 3>, array<string, 3>, array<i32, 2>, array<W1<i32>, 3>,
     i32[3], string[3], float[3], u8[3],
-    tuple<i32, i32, i32>, tuple<float, float, float>, tuple<string, string, string>, tuple<i32, string>, tuple<string, i32>, tuple<i32, i32>,
+    tuple<i32, i32, i32>, tuple<W1<i32>, i32, i32>, tuple<W1<i32>, W1<i32>>, tuple<u8, u8, W1<u8>>, tuple<float, float, float>, tuple<string, string, string>, tuple<i32, string>, tuple<string, i32>, tuple<i32, i32>,
     pair<i32, string>, pair<string, i32>, pair<i32, i32>, pair<i32, W1<string>>,
     map<i32, string>, unordered_map<i32, string>, map<i32, W1<string>>, map<u8, string>,
     S1<vector<i32>>, S1<vector<string>>, S1<vector<u8>>, S1<vector<float>>,
